@@ -275,6 +275,14 @@ fn session(lines: &[String], emit: &mut dyn FnMut(String)) {
                                 "what": format!("{line}: debugger reports `{ans}`, the reference trace restricted to the breakpoints {:x?} says `{want_s}` (trace position {from})", sim.bset),
                                 "replay": {"prog": p.name, "line": line}})));
                         } else if let (Some(j), Some(rsp)) = (want, raw_rsp(live.pid())) {
+                            // ---- oracle: after a reported stop the exploration context is the stop location, frame 0 (whatever
+                            // frame the user had selected before)
+                            let e = live.dbg.ecx();
+                            if e.frame_num() != 0 || u64::from(e.location().pc) != base + p.trace[j].pc {
+                                emit(format!("!oracle {}", json!({"key": "exploration-context-after-a-stop-is-not-the-stop-location",
+                                    "what": format!("{line}: debugger reports `{ans}`, its exploration context is frame {} pc {:x}", e.frame_num(), u64::from(e.location().pc).wrapping_sub(base)),
+                                    "replay": {"prog": p.name, "line": line}})));
+                            }
                             // ---- oracle: the stop is THAT arrival: the debuggee's stack pointer is the one the reference run has there
                             // (an arrival reported twice, or a later arrival at the same address in another activation, has another one)
                             let sh = rsp as i128 - p.trace[j].rsp as i128;
